@@ -1439,6 +1439,30 @@ theorem step_ok (hwf : WF p bs) {s : VMState} (hinv : Inv p bs env s) : StepOk p
       rw [hbody] at hb
       exact finish_ok hwf c hstop s1 e hb
 
+/-- the start state of an attempt (`executeDefault` after its `goTo(0)`) satisfies the invariant -/
+theorem init_inv (hwf : WF p bs) (pos : Int) (h0 : 0 ≤ pos) (hn : pos ≤ env.len) :
+    ∃ s0, init p pos = .ok s0 ∧ Inv p bs env s0 ∧ s0.codepos = 0 ∧ s0.track = [] := by
+  obtain ⟨w, o, hf⟩ := hwf.instr 0 hwf.zero
+  refine ⟨{ codepos := 0, oper := w, textpos := pos, track := [], stack := [],
+             cap := { m := MatchBuilder.newMatch p.capsize, crawl := [] } },
+    by simp [init, hf.fetch, Except.map], ⟨w, o, ⟨hwf, hf, hwf.zero, rfl, rfl, rfl, h0, hn⟩, ?_⟩, rfl, rfl⟩
+  unfold Shape
+  simp only [hf.noback, hf.noback2]
+  exact Or.inr ⟨trivial, Or.inl trivial⟩
+
 end stepping
+
+/-! ## a concrete program for the non-vacuity examples -/
+
+/-- `Lazybranch 18; Setmark; Nullmark; Goto 11; One a; Oneloopatomic b 1; Branchmark 6; One c;
+    Capturemark 0 -1; Stop` (what the writer emits for `(?:ab?)*c`) -/
+def demo : Prog :=
+  { codes := #[23, 18, 31, 30, 38, 11, 9, 97, 43, 98, 1, 24, 6, 9, 99, 32, 0, -1, 40], strings := #[],
+    nsets := 0, trackcount := 5, capsize := 1, caps := [], rtl := false }
+
+/-- the text "ababc" with trivial oracles -/
+def demoEnv : Env :=
+  { text := #[97, 98, 97, 98, 99], textstart := 0, setMem := fun _ _ => false, toLower := id,
+    wordChar := fun _ => true, ecmaWordChar := fun _ => true, endzStrict := false, ecma := false }
 
 end RegexVerif.Lemmas.VM
